@@ -8,6 +8,7 @@ import (
 
 	"github.com/google/uuid"
 	"github.com/rs/zerolog"
+	"github.com/semafind/semadb/conversion"
 	"github.com/semafind/semadb/diskstore"
 	"github.com/semafind/semadb/models"
 	"github.com/semafind/semadb/shard"
@@ -192,4 +193,17 @@ func BucketNames(schema models.IndexSchema) []string {
 func (s *Shard) PointCount() (uint64, error) {
 	si, err := s.S.Info()
 	return si.PointCount, err
+}
+
+// PresetNextNodeId writes the shard's next fresh node id, as if that many ids had been handed out and
+// freed again by earlier histories (the free list is left empty, which the allocator allows: ids are
+// only freed by deletions and may be consumed in any number).
+func (s *Shard) PresetNextNodeId(next uint64) error {
+	return s.Proxy.Inner().Write(func(bm diskstore.BucketManager) error {
+		b, err := bm.Get(shard.INTERNALBUCKETNAME)
+		if err != nil {
+			return err
+		}
+		return b.Put(shard.NEXTFREENODEIDKEY, conversion.Uint64ToBytes(next))
+	})
 }
